@@ -7,16 +7,29 @@
 
    FULL STATEMENT (false of the code, see the _refuted theorems):
      C12_edges : forall pr, project_shape pr = true -> same_edges (edges_model pr) (edges_py pr) = true.
-   Proved instead: four refuting witnesses, one per recorded deviation (F31-F34); the agreement on a bounded
-   domain of 19 068 projects (every import form of a catalogue x every importing module of a layout with
-   same-named modules in different packages, nested packages and re-exports x three positions/guards) under
-   the decidable predicates wf_project / wf_mod_own (C12_edges_bounded); independence of a file's resolution
-   from the other files for all inputs (C12_per_file_independent).  Missing: the agreement under wf_project
-   for all projects (an induction over resolveAbsoluteImportWithProject / ResolveReExport against
-   resolve_py; not attempted in this round).  The metric theorems are unconditional. *)
+   Proved instead:
+   - four refuting witnesses, one per recorded deviation (F31-F34);
+   - UNBOUNDED (Deps/ImportsAgree.v, no enumeration):
+       C12_edges_wf      : forall pr, wf_project pr = true -> same_edges (edges_model pr) (edges_py pr) = true
+       C12_edges_wf_own  : forall pr, wf_mod_own_strong pr = true ->
+                             same_edges (edges_model pr) (drop_own pr (edges_py pr)) = true
+     i.e. outside the four deviation classes the analyser's graph IS the specification's graph, for every project,
+     and when only the __init__ -> own submodule class (F32) is present it is the specification's graph minus exactly
+     those edges.  The per-form lemmas they are built from are unconditional or carry only the hypothesis they use:
+       C12_relative_import_agrees (every module, level, name), C12_absolute_import_agrees (under abs_ok),
+       C12_reexport_agrees (ResolveReExport against the last binding of the name in the __init__),
+       C12_statement_agrees, C12_edges_model_spec (the model graph as a set comprehension);
+   - wf_mod_own alone is NOT enough for the F32 variant on all projects (C12_wf_mod_own_insufficient: an __init__
+     with "from .impl import fa" followed by "from . import fa" where a.fa is also a submodule; the bounded domain
+     does not contain it).  wf_mod_own_strong adds the absence of that class; note that in this situation CPython
+     itself agrees with the analyser (a.fa stays the function of a.impl, the submodule is never imported), i.e. the
+     deviation is one of the SPECIFICATION Deps/PyImport.v (binding_source lets "from . import n" rebind n);
+   - the agreement on a bounded domain of 19 068 projects (C12_edges_bounded), kept as a regression;
+   - independence of a file's resolution from the other files for all inputs (C12_per_file_independent).
+   The metric theorems are unconditional. *)
 From Coq Require Import NArith ZArith QArith Qabs List Bool Arith.
 From PV Require Import Deps.PyImport Deps.Imports Deps.ImportsWf Deps.Metrics Deps.MetricsProofs Deps.DepthProofs
-  Deps.ImportsProofs.
+  Deps.ImportsProofs Deps.ImportsAgree.
 Import ListNotations.
 
 (* ---- module metrics --------------------------------------------------------------------------- *)
@@ -112,6 +125,74 @@ Proof. exact edges_bounded. Qed.
 Theorem C12_wf_inhabited : Nat.leb 1000 bounded_domain_wf = true /\ wf_project w_cache = true /\ wf_mod_own layout = true.
 Proof. exact bounded_domain_inhabited. Qed.
 
+(* ---- the unbounded agreement --------------------------------------------------------------------- *)
+(* the model graph as a set: A -> B iff a runtime import of A resolves (resolved_modules) to a project module B <> A
+   that is not below the package A *)
+Theorem C12_edges_model_spec : forall pr e, In e (edges_model pr) <->
+  exists m ii r, In m pr /\ In ii (collectModuleImports m) /\ ii_tc ii = false /\
+    In r (resolved_modules pr (empty_graph pr) m ii) /\
+    (m_is_pkg m && strict_prefixb (m_path m) r) = false /\
+    e = (m_path m, r) /\ is_module pr r = true /\ m_path m <> r.
+Proof. exact edges_model_spec. Qed.
+
+(* relative imports: resolveRelativeImport is importlib's _resolve_name, for every module, level and name *)
+Theorem C12_relative_import_agrees : forall m lv p,
+  resolveRelativeImport m lv p = match rel_base (package_of m) lv with Some b => Some (b ++ p) | None => None end.
+Proof. exact relative_import_agrees. Qed.
+
+(* absolute imports: without a same-named module beside or one directory above the importing file (abs_ok, the
+   negation of F31) the import resolves to the module of that name, or to nothing that is a project module *)
+Theorem C12_absolute_import_agrees : forall pr m p, p <> [] -> abs_ok pr m p = true ->
+  resolveAbsoluteImportWithProject pr m p = Some p \/
+  (is_module pr p = false /\ resolveAbsoluteImportWithProject pr m p = None).
+Proof. exact absolute_import_agrees. Qed.
+
+(* re-exports: "from t import n" is resolved like CPython binds it, for every t and n, except when the __init__ of t
+   holds "from . import n" for a submodule n and the specification lets that binding win *)
+Theorem C12_reexport_agrees : forall pr, project_shape pr = true -> class_all_hides pr = false ->
+  class_irregular_reexport pr = false -> forall t n,
+  name_model pr t n = resolve_name_py pr t n \/
+  (exists init, In init pr /\ m_is_pkg init = true /\ m_path init = t /\ In n (self_names init) /\
+     is_module pr (t ++ [n]) = true /\ resolve_name_py pr t n = t ++ [n]).
+Proof. exact reexport_agrees. Qed.
+
+(* one statement: the project modules it resolves to are the same *)
+Theorem C12_statement_agrees : forall pr, project_shape pr = true -> class_implicit_relative pr = false ->
+  class_all_hides pr = false -> class_irregular_reexport pr = false -> no_bad pr ->
+  forall m s, In m pr -> In s (m_imports m) -> forall r,
+  In r (resolve_py pr m s) <->
+  is_module pr r = true /\ exists ii, In ii (collect_one s) /\ In r (resolved_modules pr (empty_graph pr) m ii).
+Proof. exact stmt_agrees. Qed.
+
+(* THE UNBOUNDED THEOREM: outside the four deviation classes the import graph is the specification's, for all projects *)
+Theorem C12_edges_wf : forall pr, wf_project pr = true -> same_edges (edges_model pr) (edges_py pr) = true.
+Proof. exact edges_wf. Qed.
+
+(* with F32 present: the specification's graph minus the __init__ -> own submodule edges, for all projects *)
+Theorem C12_edges_wf_own : forall pr, wf_mod_own_strong pr = true ->
+  same_edges (edges_model pr) (drop_own pr (edges_py pr)) = true.
+Proof. exact edges_wf_own. Qed.
+
+(* wf_mod_own (what the bounded theorem assumes) does not suffice for all projects *)
+Theorem C12_wf_mod_own_insufficient : exists pr, wf_mod_own pr = true /\
+  same_edges (edges_model pr) (drop_own pr (edges_py pr)) = false /\
+  edges_model pr = [([8], [1; 5])]%N /\ drop_own pr (edges_py pr) = [([8], [1; 6])]%N.
+Proof. exact wf_mod_own_insufficient. Qed.
+
+(* wf_mod_own_strong is satisfiable: the layout, the F32 and F5 witnesses, and every wf_mod_own project of the
+   module-level runtime part of the bounded domain *)
+Theorem C12_wf_strong_inhabited :
+  wf_mod_own_strong layout = true /\ wf_mod_own_strong w_init_own = true /\ wf_mod_own_strong w_cache = true /\
+  forallb (fun imp => forallb (fun f =>
+     let pr := with_stmt imp (Build_import_stmt f false PModule) in implb (wf_mod_own pr) (wf_mod_own_strong pr)) forms)
+    (module_names layout) = true.
+Proof. exact wf_mod_own_strong_inhabited. Qed.
+
+(* wf_project allows re-exports (a/sub/__init__.py "from ..impl import fa", top.py "from a.sub import fa") *)
+Theorem C12_wf_project_reexport_example :
+  wf_project w_reexp = true /\ edges_model w_reexp = [([1; 9], [1; 5]); ([8], [1; 5])]%N.
+Proof. exact wf_project_reexport_example. Qed.
+
 Print Assumptions C12_fan_in_is_in_degree.
 Print Assumptions C12_fan_out_is_out_degree.
 Print Assumptions C12_instability_formula.
@@ -128,3 +209,13 @@ Print Assumptions C12_repaired_witnesses_agree.
 Print Assumptions C12_per_file_independent.
 Print Assumptions C12_edges_bounded.
 Print Assumptions C12_wf_inhabited.
+Print Assumptions C12_edges_model_spec.
+Print Assumptions C12_relative_import_agrees.
+Print Assumptions C12_absolute_import_agrees.
+Print Assumptions C12_reexport_agrees.
+Print Assumptions C12_statement_agrees.
+Print Assumptions C12_edges_wf.
+Print Assumptions C12_edges_wf_own.
+Print Assumptions C12_wf_mod_own_insufficient.
+Print Assumptions C12_wf_strong_inhabited.
+Print Assumptions C12_wf_project_reexport_example.
